@@ -126,6 +126,56 @@ def sessionClocks (c : Cfg) (fl : Rat → Rat) (start stop dt : Rat) (prec : Nat
 def sessionStepKeys (c : Cfg) (fl : Rat → Rat) (fuel : Nat) (dt : Rat) (precStep : Nat) (clock : Rat) : Option (List Rat) :=
   simTimes c fl fuel clock clock dt precStep
 
+/-! ### elements that consume `t` directly (wave 2)
+
+`Model.memoize(equation, arg)` normalises `arg` to the key and calls the equation **with the key**
+(`self.equations[equation](normalized_arg)`), so an element that reads `t` — `TIME`, a threshold
+`IF(TIME >= x)`, a stock's `t <= model.starttime` test and its `t - model.dt` recursion — sees the
+decimal grid value whatever float the caller passed. -/
+
+/-- the generated function of a DSL stock,
+`init if t <= model.starttime else model.memoize(name, t - model.dt) + model.dt*(…)`, reduced to what
+it does with time: the number of Euler steps between the start time and `t` (`none`: fuel exhausted —
+the Python recursion would not have ended). -/
+def stockDepth (fl : Rat → Rat) (start dt : Rat) (prec : Nat) : Nat → Rat → Option Nat
+  | 0, _ => none
+  | fuel + 1, t =>
+    if t ≤ start then some 0
+    else (stockDepth fl start dt prec fuel (memoKey fl start dt prec (fl (t - dt)))).map (· + 1)
+
+/-- kinds of elements whose value depends on the time argument itself. -/
+inductive Elem where
+  | time                 -- converter `TIME`
+  | thr (x : Rat)        -- converter `IF(TIME >= x, 1, 0)`
+  | stock                -- a stock (value = a function of the number of steps taken)
+deriving Repr
+
+/-- `Model.memoize(e, arg)` on a fresh memo: the equation is evaluated at the normalised key. -/
+def evalElem (fl : Rat → Rat) (fuel : Nat) (start dt : Rat) (prec : Nat) (e : Elem) (arg : Rat) : Option Rat :=
+  let key := memoKey fl start dt prec arg
+  match e with
+  | .time => some key
+  | .thr x => some (if x ≤ key then 1 else 0)
+  | .stock => (stockDepth fl start dt prec fuel key).map (fun k => (k : Rat))
+
+/-- `util.timerange(start, stop, dt, exclusive)` … and the callers with the precision the code computes
+from its own float arguments (`max(scale(start), scale(dt))`). -/
+def simTimesC (c : Cfg) (fl : Rat → Rat) (fuel : Nat) (start stop dt : Rat) : Option (List Rat) :=
+  simTimes c fl fuel start stop dt (precOf start dt)
+
+def plotTimesC (c : Cfg) (fl : Rat → Rat) (fuel : Nat) (start stop dt : Rat) : Option (List Rat) :=
+  plotTimes c fl fuel start stop dt (precOf start dt)
+
+def sessionClocksC (c : Cfg) (fl : Rat → Rat) (start stop dt : Rat) (calls : Nat) : List Rat :=
+  sessionClocks c fl start stop dt (precOf start dt) calls start
+
+/-- one `run_step` at clock value `clock`: `SdSimulation.start(start=clock, until=clock)` computes its
+precision from the clock value itself. -/
+def sessionStepKeysC (c : Cfg) (fl : Rat → Rat) (fuel : Nat) (dt clock : Rat) : Option (List Rat) :=
+  sessionStepKeys c fl fuel dt (precOf clock dt) clock
+
+def memoKeyC (fl : Rat → Rat) (start dt x : Rat) : Rat := memoKey fl start dt (precOf start dt) x
+
 /-! ### decimal strings (what Python's `repr` prints for a float that is a short decimal) -/
 
 def parseNatDigits (s : String) : Option Nat :=
